@@ -75,6 +75,49 @@ def callOk (e : String × Sym) : Bool :=
 values of the documented types, positionally and by name -/
 theorem documented_call_accepted : ∀ e ∈ Gen.table, callOk e = true := by decide +kernel
 
+/-- the call that spells every documented default out: mandatory arguments unnamed and in order, then every
+optional parameter by name with the value the documentation prints as its default -/
+def explicitDefaultsCall (f : FuncDef) : List ArgSpec :=
+  mandatoryCall f ++ f.args.filterMap fun a => match a.decl with
+    | .positional _ => none
+    | .optional d => some ⟨some a.name, Val.ofDef d⟩
+
+def sameRes : BindRes → BindRes → Bool
+  | .ok a, .ok b => decide (a = b)
+  | .typeError a, .typeError b => a == b
+  | .panic a, .panic b => a == b
+  | _, _ => false
+
+def defaultsOk (e : String × Sym) : Bool :=
+  match e.2 with
+  | .func f => sameRes (Bind.argvec f (explicitDefaultsCall f)) (Bind.argvec f (mandatoryCall f)) &&
+               BindRes.isOk (Bind.argvec f (mandatoryCall f))
+  | _ => true
+
+/-- every documented default value is the value the parameter really takes: omitting all optional
+parameters binds exactly what spelling each documented default out by name binds (same outcome, same
+argument vector) - for every function of the regenerated table -/
+theorem documented_defaults_are_the_defaults : ∀ e ∈ Gen.table, defaultsOk e = true := by decide +kernel
+
+/-- a value of the type the documentation shows for an optional parameter -/
+def repOfDefault : ValDef → Val
+  | .type t => repOf t
+  | d => repOf d.valType
+
+def optionalsOk (e : String × Sym) : Bool :=
+  match e.2 with
+  | .func f => BindRes.isOk (Bind.argvec f (mandatoryCall f ++ f.args.filterMap fun a => match a.decl with
+                 | .positional _ => none
+                 | .optional d => some ⟨some a.name, repOfDefault d⟩))
+  | _ => true
+
+/-- every documented optional parameter exists under its documented name and accepts a value of its
+documented type: the call naming all of them at once is accepted by every function of the table -/
+theorem documented_optionals_accepted : ∀ e ∈ Gen.table, optionalsOk e = true := by decide +kernel
+
+example : ∃ e ∈ Gen.table, (match e.2 with | .func f => f.args.any (fun a => match a.decl with | .optional _ => true | _ => false) | _ => false) = true := by
+  decide +kernel
+
 /-- the table is keyed consistently: a function's `path` is its key, so the rendered signature on a
 page belongs to the symbol it is listed under -/
 theorem paths_consistent : ∀ e ∈ Gen.table, (match e.2 with | .func f => f.path == e.1 | _ => true) = true := by
